@@ -77,6 +77,9 @@ def scenario(name):
         if name == 'unregistered-vs-containers':
             return [lambda: (norm(pformat(object())), pformat({'a': 1}, width=4)),
                     lambda: (pformat([1], width=1),)]
+        if name == 'long-strings':
+            # two different strings that have to be split (any state kept between the steps of splitting is shared)
+            return [lambda: (pformat('alpha ' * 4, width=12),), lambda: (pformat(b'omega ' * 4, width=12),)]
         if name == 'stdlib-lazy':
             import uuid
             u, e = uuid.UUID(int=1), fixtures.Color.RED
@@ -90,7 +93,7 @@ def scenario(name):
 
 
 SCENARIOS_2 = ['name-vs-subclass', 'name-vs-same', 'name-twice-vs-subclass', 'nested-vs-direct', 'structseq',
-               'unregistered-vs-containers', 'stdlib-lazy']
+               'unregistered-vs-containers', 'stdlib-lazy', 'long-strings']
 SCENARIOS_3 = ['three-threads', 'three-threads-mixed']
 
 
@@ -123,7 +126,7 @@ def sequential(name):
     return outs
 
 
-def run_one_factory(name, visible):
+def run_one_factory(name, visible, opcodes=False):
     R = registry.get()
     mk = scenario(name)
     pkg = pkgdir()
@@ -131,7 +134,7 @@ def run_one_factory(name, visible):
     def run_one(prefix):
         R.restore()
         bodies = mk()
-        s = sched.Sched(bodies, prefix, pkg, visible)
+        s = sched.Sched(bodies, prefix, pkg, visible, opcodes)
         results, trace = s.run()
         return (results, end_state()), trace
     return run_one
@@ -174,7 +177,10 @@ def explore_chunk(item):
     warnings.simplefilter('ignore')
     part = core.Part()
     visible = sched.visible_functions(pkgdir()) if visible_only else None
-    run_one = run_one_factory(name, visible)
+    run_one = run_one_factory(name, visible, visible_only == 'opcodes')
+    if visible_only == 'opcodes':
+        run_one([])
+        run_one([])
     outcomes = set()
 
     def on_exec(prefix, res_state, trace):
@@ -196,7 +202,10 @@ def explore_scenario(res, name, bound, visible_only):
     if len({s[0] for s in seq}) != 1:
         res.agg.violation('sequential-orders-disagree', {'scenario': name}, repr(sorted(seq, key=repr))[:600])
     visible = sched.visible_functions(pkgdir()) if visible_only else None
-    run_one = run_one_factory(name, visible)
+    run_one = run_one_factory(name, visible, visible_only == 'opcodes')
+    if visible_only == 'opcodes':
+        run_one([])         # per-opcode events are delivered only once the code objects are instrumented:
+        run_one([])         # warm up so that the numbering of scheduling points is stable
     # determinism self-test: the empty schedule replayed twice gives identical observations and traces
     a = run_one([])
     b = run_one([])
@@ -234,11 +243,13 @@ def run(tier, seed):
     ensure_registered()
     warnings.simplefilter('ignore')
     res = core.Result(PROPERTY, LEVEL, tier, seed)
-    A, V = False, True       # preempt at every package line / only at visible lines
+    A, V, O = False, True, 'opcodes'       # preempt at every package line / only at visible lines / also between bytecodes of visible functions
     if tier == 'quick':
         plan = [('name-vs-subclass', 1, A), ('name-vs-subclass', 2, V),
+                ('name-vs-subclass', 1, O), ('name-vs-same', 1, O),
                 ('name-vs-same', 1, A), ('name-vs-same', 2, V),
                 ('name-twice-vs-subclass', 1, A), ('name-twice-vs-subclass', 2, V),
+                ('long-strings', 1, A),
                 ('nested-vs-direct', 1, A), ('nested-vs-direct', 2, V),
                 ('unregistered-vs-containers', 1, A),
                 ('structseq', 1, V),
@@ -248,6 +259,8 @@ def run(tier, seed):
         plan = [('name-vs-subclass', 2, A), ('name-vs-subclass', 3, V),
                 ('name-vs-same', 2, A), ('name-vs-same', 3, V),
                 ('name-twice-vs-subclass', 2, A),
+                ('name-vs-subclass', 2, O), ('name-vs-same', 2, O), ('stdlib-lazy', 1, O),
+                ('long-strings', 1, A), ('long-strings', 2, V),
                 ('nested-vs-direct', 1, A), ('nested-vs-direct', 2, V),
                 ('unregistered-vs-containers', 1, A), ('unregistered-vs-containers', 2, V),
                 ('structseq', 1, A), ('structseq', 2, V),
@@ -258,7 +271,8 @@ def run(tier, seed):
     for (s, bound, vis) in plan:
         before = res.agg.n
         points, nout = explore_scenario(res, s, bound, vis)
-        desc.append({'scenario': s, 'preemption_bound': bound, 'preempt_at': 'visible lines' if vis else 'every package line',
+        desc.append({'scenario': s, 'preemption_bound': bound,
+                     'preempt_at': 'every bytecode of visible functions + visible lines' if vis == 'opcodes' else 'visible lines' if vis else 'every package line',
                      'executions': res.agg.n - before, 'scheduling_points_in_default_run': points,
                      'distinct_outcomes': nout})
     a = res.agg
@@ -284,7 +298,7 @@ def replay(case):
     name = case['scenario']
     seq = sequential(name)
     visible = sched.visible_functions(pkgdir()) if case.get('visible_only') else None
-    run_one = run_one_factory(name, visible)
+    run_one = run_one_factory(name, visible, case.get('visible_only') == 'opcodes')
     schedule = unrle(case['schedule_rle']) if 'schedule_rle' in case else case['schedule']
     (results, state), trace = run_one(schedule)
     (results2, state2), _ = run_one(schedule)
